@@ -25,7 +25,7 @@ type Node struct {
 	Disp   string            `json:"disp,omitempty"`  // specified display; "" = UA default for the tag
 	Float  string            `json:"float,omitempty"` // "", left, right, footnote (css-gcpm-3 §2)
 	FD     string            `json:"fd,omitempty"`    // footnote-display: "", block, inline, compact
-	Pos    string            `json:"pos,omitempty"`   // "", relative, absolute, fixed
+	Pos    string            `json:"pos,omitempty"`   // "", relative, absolute, fixed, running(<name>) (css-gcpm-3 §1.2)
 	LSP    string            `json:"lsp,omitempty"`   // list-style-position: "", inside, outside
 	Cap    string            `json:"cap,omitempty"`   // caption-side: "", top, bottom (inherited)
 	Before *Pseudo           `json:"before,omitempty"`
